@@ -11,7 +11,9 @@ import FitProps.C07
 `PeekFileHeader`, `Discard`, `Next`, then possibly one `CheckIntegrity`, the per-call results of (D') on the exact-n reader ARE those of (C) on the same bytes, in the
 common observable `LinkH.Tok`. The full statement
 (`Link_dechist_eq_api_statement`, every call of (D')'s alphabet) is kept as a `def`: see notes/links.md for what is missing.
-Corollaries: C07's conclusion and chunk independence of what (C) returns, over ANY clean fragmentation and buffer size.
+`Link_dechist_values_partial`: the FITs with all VALUES and the listener calls of the successful `Decode` calls are `apiOf`'s
+reconstruction of (D')'s events. Corollaries: C07's conclusion and chunk independence of what (C) returns — values included — over
+ANY clean fragmentation and buffer size.
 -/
 namespace Fit.Links
 open Fit.DecApi Fit.Link Fit.LinkH Fit.ReadBuffer
